@@ -63,6 +63,16 @@ def operator_matrix():
                   "concat(c)", "push(c[0])", "push_front(c[0])", "insert(0, c[0])", "remove(0)"]:
             out.append(f"fn main() {{ let c = {lit}; println(c.{m}); println(c); }}")
             out.append(f"fn main() {{ let c = {lit}; c.{m}; println(c); }}")
+    # `==` / `!=` between dynamically typed values of every shape pair (objects with the same number of fields and other
+    # keys, nested in objects and lists, lists against objects, null, scalars): through JSON and through an any-object
+    docs = ['{"a":{"x":1}}', '{"a":{"y":1}}', '{"a":{"x":1,"k":2}}', '{"a":{"y":1,"k":2}}', '{"a":[{"x":1}]}', '{"a":[{"y":1}]}',
+            '{"a":[1]}', '{"a":null}', '{"a":1}', '{"a":"1"}', '{"b":{"x":1}}', '{}', '{"a":{}}', '{"a":1.5}', '{"a":true}']
+    for a, b in itertools.product(docs, docs):
+        out.append(f"fn main() {{ let a = '{a}'.parse_json() as {{ ? }}; let b = '{b}'.parse_json() as {{ ? }}; println(a == b, a != b); }}")
+    vals = ["new { x: 1, k: \"v\" }", "new { y: 1, k: \"v\" }", "new { x: 1 }", "new { y: 1 }", "[new { x: 1 }]", "[new { y: 1 }]", "[1]", "1", "\"1\"",
+            "none", "?1", "1..2", "new { x: new { p: 1 } }", "new { x: new { q: 1 } }"]
+    for a, b in itertools.product(vals, vals):
+        out.append(f"fn main() {{ let o = new {{ ? }}; o.set(\"a\", {a}); o.set(\"b\", {b}); println(o.get(\"a\") == o.get(\"b\"), o.get(\"a\") != o.get(\"b\")); }}")
     return out
 
 
